@@ -922,9 +922,6 @@ func (w *vWorld) storeDigest() []string {
 	}
 	sort.Slice(names, func(i, j int) bool { return w.tname(names[i]) < w.tname(names[j]) })
 	for _, n := range names {
-		if n == "sys" {
-			continue
-		}
 		tp := w.ad.Topics[n]
 		subs := []string{}
 		for _, s := range w.ad.vmemSubsOfTopic(n) {
@@ -1222,6 +1219,13 @@ func (w *vWorld) inflightTaken(s *Session) bool {
 	return s.inflightReqs != nil && len(s.inflightReqs.sem) >= cap(s.inflightReqs.sem)
 }
 
+// the hub's start-up (Hub.run is entered with a join for `sys`): the system topic is loaded before any request
+func (w *vWorld) loadSys() {
+	globals.hub.join <- &ClientComMessage{RcptTo: "sys", Original: "sys"}
+	w.pump()
+	w.ad.Calls = nil
+}
+
 func (w *vWorld) asUidOf(s *Session, kv map[string]string) types.Uid {
 	if as, ok := kv["as"]; ok {
 		if uid, ok := w.users[strings.SplitN(as, ":", 2)[0]]; ok {
@@ -1241,6 +1245,7 @@ func (w *vWorld) op(ws []string) (string, bool) {
 		}
 		vwReset(mx)
 		vwExiting = nil
+		vw.loadSys()
 		return "ok", true
 	case "user":
 		// user U1 <authAcs> <anonAcs> [state]
@@ -1700,6 +1705,7 @@ func (w *vWorld) op(ws []string) (string, bool) {
 			<-globals.usersUpdate
 		}
 		vwExiting = nil
+		w.loadSys()
 	default:
 		return "", false
 	}
